@@ -72,6 +72,9 @@ def configs(tier, seed):
             if tier == "quick" and (k + len(op) + seed) % 3:
                 continue
             cfgs.append(dict(name=f"big vec{k} {op}", kind="big", op=op, **base))
+    # int control points and int weights (no symbolic input: plain enumeration of the representation, reported as such)
+    for k, (p, vals, mults) in enumerate(vecs):
+        cfgs.append(dict(name=f"int points/weights vec{k}", kind="ints", p=p, vals=vals, mults=mults))
     seen = set()
     for p in (1, 2, 3):
         for pat in ([p + 1, p + 1], [p + 1, 1, p + 1], [p + 1, p, p + 1]):
@@ -160,10 +163,58 @@ def outputs_of(op, Curve, Function, knots, P, extra):
     raise AssertionError(op)
 
 
+def _ints(env, cfg):
+    """Fraction knots with *int* control points and weights: every result must be an int or a Fraction and equal to the
+    result obtained with the same numbers given as Fractions"""
+    from compmec.nurbs import Curve
+    p, mults = cfg["p"], cfg["mults"]
+    qvals = [F(float(v)) for v in cfg["vals"]]
+    kv = KV(qvals, mults)
+    n = kv.n
+    ipts = [((3 * i * i + 2 * i) % 7) - 3 for i in range(n)]
+    iw = [1 + ((5 * i + 2) % 4) for i in range(n)]
+    mid = next(F(x) for x in (0.4375, 0.3125, 0.8125, 0.15625) if F(x) not in qvals and qvals[0] < x < qvals[-1])
+    bad = []
+    for rational in (False, True):
+        for op in ("eval", "knot_insert1", "knot_insert2", "degree_increase", "split", "add"):
+            outs = []
+            for conv in (int, F):
+                c = Curve(list(kv.U), [conv(x) for x in ipts], [conv(w) for w in iw] if rational else None)
+                if op == "eval":
+                    res = list(c([qvals[0], mid, qvals[-1]]))
+                elif op == "knot_insert1":
+                    c.knot_insert([mid])
+                    res = list(c.ctrlpoints) + list(c.weights or [])
+                elif op == "knot_insert2":
+                    c.knot_insert([mid, mid] if p >= 2 else [mid, (mid + qvals[-1]) / 2])
+                    res = list(c.ctrlpoints) + list(c.weights or [])
+                elif op == "degree_increase":
+                    c.degree_increase(1)
+                    res = list(c.ctrlpoints) + list(c.weights or [])
+                elif op == "split":
+                    res = []
+                    for piece in c.split([mid]):
+                        res += list(piece.ctrlpoints) + list(piece.weights or [])
+                else:
+                    d = Curve(list(kv.U), [conv(2 * x + 1) for x in ipts])
+                    e = c + d
+                    res = list(e.ctrlpoints) + list(e.weights or [])
+                outs.append(res)
+            ri, rf = outs
+            if any(isinstance(x, (float, np.floating)) for x in ri):
+                bad.append(f"{op}{' rational' if rational else ''}: float results from int data")
+            elif len(ri) != len(rf) or any(F(a) != F(b) for a, b in zip(ri, rf)):
+                bad.append(f"{op}{' rational' if rational else ''}: int data and Fraction data disagree")
+    env.holds("int control points / weights give exact results: " + "; ".join(bad[:4]), not bad)
+
+
 def body(env, cfg):
     from compmec.nurbs import Curve, Function
 
     kind = cfg["kind"]
+    if kind == "ints":
+        _ints(env, cfg)
+        return
     if kind in ("exact", "floats", "big"):
         p, mults = cfg["p"], cfg["mults"]
         fvals = [float(v) for v in cfg["vals"]]
